@@ -21,7 +21,7 @@ LEVEL_ASSUMPTIONS = [
     "oracle: Python-int cyclic sum; the wrappers replace the module globals "
     "ea1p1_revn.rev_if_not_worse / fea1p1_revn.rev_if_h_not_worse that "
     "solve() looks up at call time (zero wrapper calls => inconclusive)"]
-REQUIRED = {"kernel_calls_ea": 5000, "kernel_calls_fea": 5000,
+REQUIRED = {"runs_with_entries_above_2^31": 10, "kernel_calls_ea": 5000, "kernel_calls_fea": 5000,
             "register_events": 10000, "moves_i0": 200, "moves_j_nm2": 200,
             "accepted_moves": 2000, "direct_all_ij_instances": 10,
             "runs": 100}
@@ -183,8 +183,9 @@ class Proxy:
 
 
 def gen_sym(rng, n):
-    kind = int(rng.integers(6))
-    hi = int(rng.choice([1, 2, 5, 100, 10 ** 4, 10 ** 9]))
+    kind = int(rng.integers(8))
+    hi = int(rng.choice([1, 2, 5, 100, 10 ** 4, 10 ** 9, 3 * 10 ** 9,
+                         10 ** 12]))
     m = [[0] * n for _ in range(n)]
     if kind == 5:
         # row maxima so that ub sits near an int8 / int16 edge
@@ -201,6 +202,12 @@ def gen_sym(rng, n):
             else:
                 v = int(rng.integers(1, hi + 1))
             m[i][j] = m[j][i] = v
+    if kind in (6, 7) and n >= 3:
+        # "big-M" edges: one or two forbidden edges far above 2^31 / 2^32
+        for _ in range(int(rng.integers(1, 3))):
+            i, j = (int(v) for v in rng.choice(n, 2, replace=False))
+            m[i][j] = m[j][i] = int(rng.choice([2 ** 31, 3 * 10 ** 9,
+                                                2 ** 32 + 5, 10 ** 11]))
     for i in range(n):
         if max(m[i]) <= 0:
             j = (i + 1) % n
@@ -256,6 +263,9 @@ def run_one(ctx, m, name, alg_kind, seed, fes):
     ctx.case()
     ctx.count("runs")
     ctx.count(f"runs[{alg_kind}]")
+    if max(max(r) for r in m) >= 2 ** 31:
+        ctx.count("runs_with_entries_above_2^31")
+    ctx.count(f"dtype[{inst.dtype}]")
     with ex.execute() as p:
         bf = p.get_best_f()
         bx = p.create()
@@ -297,9 +307,10 @@ def direct_all_ij(ctx, m):
                     y = exact(m, st)
                     ctx.case()
                     ea.rev_if_not_worse(i, j, n, inst, x, y)
-                    x[:] = st
-                    h = np.zeros(ub + 1, np.int64)
-                    fea.rev_if_h_not_worse(i, j, n, inst, h, x, y)
+                    if ub <= 4_000_000:   # the table needs ub+1 entries
+                        x[:] = st
+                        h = np.zeros(ub + 1, np.int64)
+                        fea.rev_if_h_not_worse(i, j, n, inst, h, x, y)
     except Stop:
         return
     ctx.count("direct_all_ij_instances")
